@@ -45,7 +45,37 @@ def enc_op(op):
     return [Sym(n)]
 
 
+class _NotDict(object):
+    """an object with the mapping methods but no dict in its ancestry"""
+    def items(self):
+        return [('id', 'x')]
+
+    def values(self):
+        return ['x']
+
+    def keys(self):
+        return ['id']
+
+    def __iter__(self):
+        return iter(['id'])
+
+    def __getitem__(self, k):
+        return 'x'
+
+    def __contains__(self, k):
+        return k == 'id'
+
+
+class _Str(str):
+    pass
+
+
+class _Num(int):
+    pass
+
+
 class Impl:
+    nd_count = 0
     """hszinc.Grid driven by the same operations; rows are real dicts whose
     identity is tracked by tag."""
 
@@ -67,7 +97,33 @@ class Impl:
         if r[0] == 'notdict':
             tag = r[1]
             if tag not in self.objs:
-                o = ['not', 'a', 'dict', tag]
+                # what is not a dict changes from one grid to the next: a list, mappings that are not dicts (hszinc's own
+                # SortableDict / MetadataObject, a UserDict), a tuple of pairs, None, a string, a number
+                Impl.nd_count += 1
+                k = Impl.nd_count % 9
+                if k == 1:
+                    from hszinc.sortabledict import SortableDict
+                    o = SortableDict()
+                    o['id'] = 'nd%d' % tag
+                elif k == 2:
+                    from hszinc.metadata import MetadataObject
+                    o = MetadataObject()
+                    o['v'] = tag
+                elif k == 3:
+                    import collections
+                    o = collections.UserDict({'id': 'nd%d' % tag})
+                elif k == 4:
+                    o = (('id', 'nd%d' % tag),)
+                elif k == 5:
+                    o = _NotDict()
+                elif k == 6:
+                    o = _Str('nd%d' % tag)
+                elif k == 7:
+                    o = _Num(tag)
+                elif k == 8:
+                    o = frozenset([('id', tag)])
+                else:
+                    o = ['not', 'a', 'dict', tag]
                 self.objs[tag] = o
                 self.tags[id(o)] = tag
             return self.objs[tag]
